@@ -121,3 +121,485 @@ Lemma good_pkg_ok :
   pkg_ok builtin_names w_good = true /\
   forallb (fun m => match ex w_good (path m) with Ok _ => true | Fail _ => false end) w_good = true.
 Proof. vm_compute. split; reflexivity. Qed.
+
+(* ================================================================== soundness of pkg_ok *)
+Local Open Scope nat_scope.
+
+Lemma mpeq_true : forall a b, modpath_eqb a b = true <-> a = b.
+Proof.
+  unfold modpath_eqb.
+  induction a as [|x a IH]; destruct b as [|y b]; simpl; split; intro H;
+    try reflexivity; try discriminate.
+  - apply andb_true_iff in H. destruct H as [H1 H2].
+    apply str_eqb_eq in H1. apply IH in H2. subst. reflexivity.
+  - inversion H; subst. apply andb_true_iff. split; [apply str_eqb_refl | apply IH; reflexivity].
+Qed.
+Lemma mpeq_refl : forall a, modpath_eqb a a = true.
+Proof. intro a. apply mpeq_true. reflexivity. Qed.
+Lemma mpeq_false : forall a b, modpath_eqb a b = false <-> a <> b.
+Proof.
+  intros a b. split.
+  - intros H E. apply mpeq_true in E. congruence.
+  - intro H. destruct (modpath_eqb a b) eqn:E; [apply mpeq_true in E; contradiction | reflexivity].
+Qed.
+Lemma mpeq_sym : forall a b, modpath_eqb a b = modpath_eqb b a.
+Proof.
+  intros a b. destruct (modpath_eqb a b) eqn:E.
+  - apply mpeq_true in E. subst. symmetry. apply mpeq_refl.
+  - symmetry. apply mpeq_false. apply mpeq_false in E. congruence.
+Qed.
+
+(* ---------- sys.modules as an association list *)
+Lemma find_sys_app : forall st1 st2 p,
+  find_sys (st1 ++ st2) p = match find_sys st1 p with Some x => Some x | None => find_sys st2 p end.
+Proof.
+  induction st1 as [|m st1 IH]; intros st2 p; simpl; [reflexivity|].
+  destruct (modpath_eqb (ms_path m) p); [reflexivity | apply IH].
+Qed.
+
+Lemma find_sys_path : forall st p m, find_sys st p = Some m -> ms_path m = p.
+Proof.
+  induction st as [|x st IH]; intros p m H; simpl in H; [discriminate|].
+  destruct (modpath_eqb (ms_path x) p) eqn:E.
+  - inversion H; subst. apply mpeq_true. exact E.
+  - apply IH. exact H.
+Qed.
+
+Lemma find_update_same : forall st p f,
+  (forall m, ms_path (f m) = ms_path m) ->
+  find_sys (update_sys st p f) p = option_map f (find_sys st p).
+Proof.
+  induction st as [|x st IH]; intros p f Hf; simpl; [reflexivity|].
+  destruct (modpath_eqb (ms_path x) p) eqn:E; simpl.
+  - rewrite Hf, E. reflexivity.
+  - rewrite E. apply IH. exact Hf.
+Qed.
+
+Lemma find_update_other : forall st p q f,
+  (forall m, ms_path (f m) = ms_path m) -> q <> p ->
+  find_sys (update_sys st p f) q = find_sys st q.
+Proof.
+  induction st as [|x st IH]; intros p q f Hf Hne; simpl; [reflexivity|].
+  destruct (modpath_eqb (ms_path x) p) eqn:E; simpl.
+  - rewrite Hf. apply mpeq_true in E.
+    assert (E2 : modpath_eqb (ms_path x) q = false) by (apply mpeq_false; congruence).
+    rewrite E2. reflexivity.
+  - destruct (modpath_eqb (ms_path x) q); [reflexivity | apply IH; assumption].
+Qed.
+
+Lemma in_sys_true : forall st p, in_sys st p = true <-> exists m, find_sys st p = Some m.
+Proof.
+  intros st p. unfold in_sys. destruct (find_sys st p) as [m|].
+  - split; [intros _; exists m; reflexivity | reflexivity].
+  - split; [discriminate | intros [m H]; discriminate].
+Qed.
+
+(* ---------- pure_step only looks at the view at the statement's target *)
+Lemma bind_names_ext : forall pkg vw1 vw2 t names g,
+  vw1 t = vw2 t -> bind_names pkg vw1 t g names = bind_names pkg vw2 t g names.
+Proof.
+  intros pkg vw1 vw2 t names. induction names as [|[n asn] r IH]; intros g H; simpl; [reflexivity|].
+  rewrite <- H. destruct (vw1 t) as [T|].
+  - destruct (alookup n (ms_globals T)); [apply IH; exact H|].
+    destruct (has_mod pkg (t ++ [n])); [apply IH; exact H | reflexivity].
+  - apply IH. exact H.
+Qed.
+
+Lemma pure_step_ext : forall B pkg vw1 vw2 ga s,
+  (forall t, stmt_target s = Some t -> vw1 t = vw2 t) ->
+  pure_step B pkg vw1 ga s = pure_step B pkg vw2 ga s.
+Proof.
+  intros B pkg vw1 vw2 ga s H. destruct s; simpl in *; try reflexivity.
+  - rewrite (bind_names_ext pkg vw1 vw2 target names (fst ga) (H _ eq_refl)). reflexivity.
+  - rewrite (H _ eq_refl). reflexivity.
+Qed.
+
+Lemma submodule_loads_ext : forall pkg vw1 vw2 s,
+  (forall t, stmt_target s = Some t -> vw1 t = vw2 t) ->
+  submodule_loads pkg vw1 s = submodule_loads pkg vw2 s.
+Proof.
+  intros pkg vw1 vw2 s H. destruct s; simpl in *; try reflexivity.
+  rewrite (H _ eq_refl). reflexivity.
+Qed.
+
+(* ---------- the import chain of a target: its nonempty prefixes, shortest first *)
+Lemma prefixes_from_spec : forall p acc,
+  prefixes_from acc p = map (fun k => acc ++ firstn k p) (seq 1 (length p - 1)).
+Proof.
+  induction p as [|x p IH]; intro acc; [reflexivity|].
+  destruct p as [|y r]; [reflexivity|].
+  change (prefixes_from acc (x :: y :: r)) with ((acc ++ [x]) :: prefixes_from (acc ++ [x]) (y :: r)).
+  rewrite IH.
+  replace (length (x :: y :: r) - 1) with (S (length r)) by (simpl; lia).
+  replace (length (y :: r) - 1) with (length r) by (simpl; lia).
+  change (seq 1 (S (length r))) with (1 :: seq 2 (length r)).
+  rewrite <- (seq_shift (length r) 1). rewrite map_cons, map_map.
+  f_equal. apply map_ext. intro k. rewrite <- app_assoc. reflexivity.
+Qed.
+
+Lemma chain_nth : forall t i, i < length t ->
+  nth_error (chain_of t) i = Some (firstn (S i) t).
+Proof.
+  intros t i Hi. unfold chain_of, proper_prefixes. rewrite prefixes_from_spec.
+  destruct (Nat.eq_dec i (length t - 1)) as [E|E].
+  - rewrite nth_error_app2; rewrite map_length, seq_length; [|lia].
+    replace (i - (length t - 1)) with 0 by lia.
+    change (nth_error [t] 0) with (Some t).
+    rewrite (firstn_all2 (n := S i) t) by lia. reflexivity.
+  - rewrite nth_error_app1 by (rewrite map_length, seq_length; lia).
+    rewrite nth_error_map. rewrite nth_error_nth' with (d := 0) by (rewrite seq_length; lia).
+    rewrite seq_nth by lia. reflexivity.
+Qed.
+
+Lemma chain_length : forall t, t <> [] -> length (chain_of t) = length t.
+Proof.
+  intros t Ht. unfold chain_of, proper_prefixes. rewrite prefixes_from_spec.
+  rewrite app_length, map_length, seq_length. simpl.
+  destruct t; [contradiction | simpl; lia].
+Qed.
+
+Lemma proper_prefixes_In : forall q a, In a (proper_prefixes q) ->
+  exists k, 1 <= k /\ k < length q /\ a = firstn k q.
+Proof.
+  intros q a H. unfold proper_prefixes in H. rewrite prefixes_from_spec in H.
+  apply in_map_iff in H. destruct H as [k [Hk Hin]]. apply in_seq in Hin.
+  exists k. simpl in Hk. repeat split; try lia. symmetry. exact Hk.
+Qed.
+
+(* ancestors come earlier in the chain *)
+Lemma chain_ancestors_earlier : forall t l1 q l2,
+  chain_of t = l1 ++ q :: l2 -> forall a, In a (proper_prefixes q) -> In a l1.
+Proof.
+  intros t l1 q l2 H a Ha.
+  destruct t as [|x t'].
+  - (* chain_of [] = [[]] *)
+    destruct l1 as [|y l1]; simpl in H.
+    + inversion H; subst. simpl in Ha. contradiction.
+    + inversion H. destruct l1; discriminate.
+  - set (t := x :: t') in *.
+    assert (Hlen : length (chain_of t) = length t) by (apply chain_length; discriminate).
+    assert (Hi : length l1 < length t).
+    { rewrite <- Hlen, H, app_length. simpl. lia. }
+    assert (Hq : q = firstn (S (length l1)) t).
+    { pose proof (chain_nth t (length l1) Hi) as Hn. rewrite H in Hn.
+      rewrite nth_error_app2 in Hn by lia. rewrite Nat.sub_diag in Hn. cbn [nth_error] in Hn. injection Hn as Hn. exact Hn. }
+    apply proper_prefixes_In in Ha. destruct Ha as [k [Hk1 [Hk2 ->]]].
+    assert (Hql : length q = S (length l1)) by (rewrite Hq, firstn_length; lia).
+    assert (Hk : k - 1 < length l1) by lia.
+    pose proof (chain_nth t (k - 1) ltac:(lia)) as Hn.
+    rewrite H in Hn. rewrite nth_error_app1 in Hn by lia.
+    apply nth_error_In in Hn.
+    replace (S (k - 1)) with k in Hn by lia.
+    rewrite Hq. rewrite firstn_firstn. replace (Init.Nat.min k (S (length l1))) with k by lia.
+    exact Hn.
+Qed.
+
+Lemma prefix_parts_firstn : forall k (t : modpath), prefix_parts (firstn k t) t = true.
+Proof.
+  induction k as [|k IH]; intros [|x t]; simpl; try reflexivity.
+  rewrite str_eqb_refl. simpl. apply IH.
+Qed.
+
+Lemma chain_In_prefix : forall t q, In q (chain_of t) -> t <> [] -> prefix_parts q t = true /\ q <> [].
+Proof.
+  intros t q H Ht. apply In_nth_error in H. destruct H as [i Hi].
+  assert (Hlt : i < length t).
+  { rewrite <- (chain_length t Ht). apply nth_error_Some. congruence. }
+  rewrite (chain_nth t i Hlt) in Hi.
+  assert (Hq : q = firstn (S i) t) by congruence. clear Hi. subst q. split.
+  - apply prefix_parts_firstn.
+  - destruct t; [contradiction | simpl; discriminate].
+Qed.
+
+(* ---------- small facts about lookups in lists of paths / modules *)
+Lemma mem_path_In' : forall m l, mem_path m l = true <-> In m l.
+Proof.
+  intros m l. unfold mem_path. rewrite existsb_exists. split.
+  - intros [x [Hin He]]. apply mpeq_true in He. subst. exact Hin.
+  - intro H. exists m. split; [exact H | apply mpeq_refl].
+Qed.
+
+Lemma nodup_paths_NoDup : forall l, nodup_paths l = true -> NoDup l.
+Proof.
+  induction l as [|x l IH]; intro H; [constructor|].
+  simpl in H. apply andb_true_iff in H. destruct H as [H1 H2].
+  constructor; [|apply IH; exact H2].
+  intro Hin. apply mem_path_In' in Hin. rewrite Hin in H1. discriminate.
+Qed.
+
+Lemma index_of_nth : forall l p i, index_of p l = Some i -> nth_error l i = Some p.
+Proof.
+  induction l as [|x l IH]; intros p i H; simpl in H; [discriminate|].
+  destruct (modpath_eqb x p) eqn:E.
+  - inversion H; subst. apply mpeq_true in E. subst. reflexivity.
+  - destruct (index_of p l) as [j|] eqn:Ej; [|discriminate].
+    inversion H; subst. simpl. apply IH. exact Ej.
+Qed.
+
+Lemma index_of_In : forall l p, In p l -> exists i, index_of p l = Some i.
+Proof.
+  induction l as [|x l IH]; intros p H; [contradiction|]. simpl.
+  destruct (modpath_eqb x p) eqn:E; [exists 0; reflexivity|].
+  destruct H as [H|H]; [subst; rewrite mpeq_refl in E; discriminate|].
+  destruct (IH p H) as [i Hi]. rewrite Hi. exists (S i). reflexivity.
+Qed.
+
+Lemma index_of_lt : forall l p i, index_of p l = Some i -> i < length l.
+Proof. intros l p i H. apply index_of_nth in H. apply nth_error_Some. congruence. Qed.
+
+Lemma find_mod_spec : forall pkg p m, find_mod pkg p = Some m -> In m pkg /\ path m = p.
+Proof.
+  induction pkg as [|x pkg IH]; intros p m H; simpl in H; [discriminate|].
+  destruct (modpath_eqb (path x) p) eqn:E.
+  - inversion H; subst. split; [left; reflexivity | apply mpeq_true; exact E].
+  - destruct (IH p m H) as [H1 H2]. split; [right; exact H1 | exact H2].
+Qed.
+
+Lemma has_mod_true : forall pkg p, has_mod pkg p = true <-> exists m, find_mod pkg p = Some m.
+Proof.
+  intros pkg p. unfold has_mod. destruct (find_mod pkg p) as [m|].
+  - split; [intros _; exists m; reflexivity | reflexivity].
+  - split; [discriminate | intros [m H]; discriminate].
+Qed.
+
+Lemma find_mod_In : forall pkg m, In m pkg -> has_mod pkg (path m) = true.
+Proof.
+  induction pkg as [|x pkg IH]; intros m H; [contradiction|].
+  unfold has_mod. simpl. destruct (modpath_eqb (path x) (path m)) eqn:E; [reflexivity|].
+  destruct H as [H|H]; [subst; rewrite mpeq_refl in E; discriminate|].
+  apply IH in H. unfold has_mod in H. exact H.
+Qed.
+
+Lemma find_sys_In_paths : forall st p e, find_sys st p = Some e -> In p (map ms_path st).
+Proof.
+  induction st as [|x st IH]; intros p e H; simpl in H; [discriminate|].
+  destruct (modpath_eqb (ms_path x) p) eqn:E.
+  - left. apply mpeq_true. exact E.
+  - right. eapply IH. exact H.
+Qed.
+
+Lemma find_sys_first : forall st p j e,
+  nth_error st j = Some e -> ms_path e = p ->
+  (forall i e', i < j -> nth_error st i = Some e' -> ms_path e' <> p) ->
+  find_sys st p = Some e.
+Proof.
+  induction st as [|x st IH]; intros p j e Hn Hp Hfirst; [destruct j; discriminate|].
+  destruct j as [|j]; simpl in *.
+  - inversion Hn; subst. rewrite mpeq_refl. reflexivity.
+  - assert (E : modpath_eqb (ms_path x) p = false).
+    { apply mpeq_false. apply (Hfirst 0 x); [lia | reflexivity]. }
+    rewrite E. apply (IH p j e Hn Hp).
+    intros i e' Hi Hn'. apply (Hfirst (S i) e'); [lia | exact Hn'].
+Qed.
+
+(* ---------- the canonical (static) run *)
+Lemma fold_canon_fail : forall B pkg l e, fold_left (canon_step B pkg) l (Fail e) = Fail e.
+Proof. induction l as [|p l IH]; intro e; simpl; [reflexivity | apply IH]. Qed.
+
+Lemma fold_canon : forall B pkg l acc C,
+  fold_left (canon_step B pkg) l (Ok acc) = Ok C ->
+  exists ext, C = acc ++ ext /\ map ms_path ext = l /\
+    forall i p, nth_error l i = Some p ->
+      exists m g al, find_mod pkg p = Some m /\
+        sbody B pkg (find_sys (acc ++ firstn i ext)) ([], None) (body m) = Ok (g, al) /\
+        exports_ok g al = true /\ nth_error ext i = Some (mkMS p true g al).
+Proof.
+  intros B pkg. induction l as [|p l IH]; intros acc C H; simpl in H.
+  - inversion H; subst. exists []. rewrite app_nil_r. repeat split; auto.
+    intros i p Hn. destruct i; discriminate.
+  - destruct (find_mod pkg p) as [m|] eqn:Em; [|rewrite fold_canon_fail in H; discriminate].
+    destruct (sbody B pkg (find_sys acc) ([], None) (body m)) as [[g al]|e] eqn:Es;
+      [|rewrite fold_canon_fail in H; discriminate].
+    simpl in H. destruct (exports_ok g al) eqn:Ee; [|rewrite fold_canon_fail in H; discriminate].
+    apply IH in H. destruct H as [ext [HC [Hmap Hall]]].
+    exists (mkMS p true g al :: ext). split; [|split].
+    + rewrite HC, <- app_assoc. reflexivity.
+    + simpl. rewrite Hmap. reflexivity.
+    + intros i q Hn. destruct i as [|i].
+      * simpl in Hn. inversion Hn; subst q. exists m, g, al. simpl. rewrite app_nil_r. auto.
+      * simpl in Hn. destruct (Hall i q Hn) as [m' [g' [al' [H1 [H2 [H3 H4]]]]]].
+        exists m', g', al'. repeat split; auto.
+        simpl. rewrite <- app_assoc in H2. exact H2.
+Qed.
+
+Lemma proper_prefixes_complete : forall q p,
+  prefix_parts q p = true -> q <> [] -> q <> p -> In q (proper_prefixes p).
+Proof.
+  intros q p Hpre Hne Hneq.
+  assert (Hq : q = firstn (length q) p /\ length q <= length p).
+  { clear Hne Hneq. revert p Hpre. induction q as [|x q IH]; intros p Hpre; [split; [reflexivity | simpl; lia]|].
+    destruct p as [|y p]; [discriminate|]. simpl in Hpre.
+    apply andb_true_iff in Hpre. destruct Hpre as [H1 H2]. apply str_eqb_eq in H1. subst y.
+    destruct (IH p H2) as [E L]. split; [simpl; f_equal; exact E | simpl; lia]. }
+  destruct Hq as [Hq Hl].
+  assert (Hlt : length q < length p).
+  { destruct (Nat.eq_dec (length q) (length p)) as [E|E]; [|lia].
+    exfalso. apply Hneq. rewrite Hq, E. apply firstn_all. }
+  unfold proper_prefixes. rewrite prefixes_from_spec. apply in_map_iff.
+  exists (length q). split; [simpl; symmetry; exact Hq|].
+  apply in_seq. destruct q; [contradiction | simpl in *; lia].
+Qed.
+
+Lemma in_sys_update : forall st p f q,
+  (forall m, ms_path (f m) = ms_path m) -> in_sys (update_sys st p f) q = in_sys st q.
+Proof.
+  intros st p f q Hf. unfold in_sys.
+  destruct (mpeq_true q p) as [_ _]. destruct (modpath_eqb q p) eqn:E.
+  - apply mpeq_true in E. subst q. rewrite find_update_same by exact Hf.
+    destruct (find_sys st p); reflexivity.
+  - apply mpeq_false in E. rewrite find_update_other by assumption. reflexivity.
+Qed.
+
+Lemma nth_error_firstn' : forall (A : Type) (l : list A) j k,
+  nth_error (firstn j l) k = if k <? j then nth_error l k else None.
+Proof.
+  induction l as [|x l IH]; intros j k.
+  - rewrite firstn_nil. destruct k; destruct (_ <? _); reflexivity.
+  - destruct j as [|j]; [destruct k; reflexivity|].
+    destruct k as [|k]; [reflexivity|]. simpl firstn. simpl nth_error. rewrite IH.
+    change (S k <? S j) with (k <? j). reflexivity.
+Qed.
+
+Section Sound.
+  Variable B : list str.
+  Variable P : package.
+  Variable C : sysmods.
+  Hypothesis Hcanon : canon B P = Ok C.
+  Hypothesis Hacyc : c_acyclic P = true.
+  Hypothesis Hclosed : c_closed P = true.
+  Hypothesis Hnoanc : c_no_ancestor_names P = true.
+
+  Let order := topo_order P.
+  Definition idx (p : modpath) : option nat := index_of p order.
+
+  Lemma ord_nodup : NoDup order.
+  Proof.
+    unfold c_acyclic in Hacyc. apply andb_true_iff in Hacyc. destruct Hacyc as [H _].
+    apply andb_true_iff in H. destruct H as [H _]. apply nodup_paths_NoDup. exact H.
+  Qed.
+
+  Lemma ord_mod : forall p i, idx p = Some i -> has_mod P p = true.
+  Proof.
+    intros p i H. unfold c_acyclic in Hacyc. apply andb_true_iff in Hacyc. destruct Hacyc as [_ H3].
+    rewrite forallb_forall in H3. apply H3. apply index_of_nth in H. eapply nth_error_In. exact H.
+  Qed.
+
+  Lemma ord_edges : forall m, In m P ->
+    exists i, idx (path m) = Some i /\
+      forall q, In q (mod_edges P m) -> exists j, idx q = Some j /\ j < i.
+  Proof.
+    intros m Hm. unfold c_acyclic in Hacyc. apply andb_true_iff in Hacyc. destruct Hacyc as [H _].
+    apply andb_true_iff in H. destruct H as [_ H]. rewrite forallb_forall in H. specialize (H m Hm).
+    unfold edges_decrease in H. fold order in H.
+    destruct (index_of (path m) order) as [i|] eqn:Ei; [|discriminate].
+    exists i. split; [exact Ei|]. intros q Hq. rewrite forallb_forall in H. specialize (H q Hq).
+    unfold idx. destruct (index_of q order) as [j|]; [|discriminate].
+    exists j. split; [reflexivity | apply Nat.ltb_lt; exact H].
+  Qed.
+
+  (* --- the canonical entries *)
+  Lemma canon_paths : map ms_path C = order.
+  Proof.
+    unfold canon in Hcanon. apply fold_canon in Hcanon. destruct Hcanon as [ext [HC [Hm _]]].
+    simpl in HC. subst C. exact Hm.
+  Qed.
+
+  Lemma canon_nth : forall p j, idx p = Some j ->
+    exists m g al, find_mod P p = Some m /\
+      sbody B P (find_sys (firstn j C)) ([], None) (body m) = Ok (g, al) /\
+      exports_ok g al = true /\ nth_error C j = Some (mkMS p true g al).
+  Proof.
+    intros p j H. unfold canon in Hcanon. apply fold_canon in Hcanon.
+    destruct Hcanon as [ext [HC [_ Hall]]]. simpl in HC. subst C.
+    apply index_of_nth in H. exact (Hall j p H).
+  Qed.
+
+  Lemma canon_unique : forall i j e e' p,
+    nth_error C i = Some e -> nth_error C j = Some e' -> ms_path e = p -> ms_path e' = p -> i = j.
+  Proof.
+    intros i j e e' p Hi Hj Hp Hp'.
+    assert (Hi' : nth_error order i = Some p) by (rewrite <- canon_paths, nth_error_map, Hi; simpl; congruence).
+    assert (Hj' : nth_error order j = Some p) by (rewrite <- canon_paths, nth_error_map, Hj; simpl; congruence).
+    pose proof ord_nodup as Hnd. rewrite NoDup_nth_error in Hnd. apply Hnd; [|congruence].
+    apply nth_error_Some. congruence.
+  Qed.
+
+  Lemma canon_find : forall p j e, nth_error C j = Some e -> ms_path e = p -> find_sys C p = Some e.
+  Proof.
+    intros p j e Hn Hp. apply (find_sys_first C p j e Hn Hp).
+    intros i e' Hi Hn' Hp'. assert (i = j) by (eapply canon_unique; eauto). lia.
+  Qed.
+
+  Lemma canon_find_prefix : forall p j k e, nth_error C k = Some e -> ms_path e = p -> k < j ->
+    find_sys (firstn j C) p = Some e.
+  Proof.
+    intros p j k e Hn Hp Hk.
+    assert (Hn2 : nth_error (firstn j C) k = Some e) by (rewrite nth_error_firstn'; destruct (Nat.ltb_spec k j); [exact Hn | lia]).
+    apply (find_sys_first _ p k e Hn2 Hp).
+    intros i e' Hi Hn' Hp'.
+    assert (Hn3 : nth_error C i = Some e').
+    { rewrite nth_error_firstn' in Hn'. destruct (Nat.ltb_spec i j); [exact Hn' | discriminate]. }
+    assert (i = k) by (eapply canon_unique; eauto). lia.
+  Qed.
+
+  Lemma canon_entry : forall p j, idx p = Some j ->
+    exists m g al, find_mod P p = Some m /\
+      sbody B P (find_sys (firstn j C)) ([], None) (body m) = Ok (g, al) /\
+      exports_ok g al = true /\ find_sys C p = Some (mkMS p true g al).
+  Proof.
+    intros p j H. destruct (canon_nth p j H) as [m [g [al [H1 [H2 [H3 H4]]]]]].
+    exists m, g, al. repeat split; auto. eapply canon_find; [exact H4 | reflexivity].
+  Qed.
+
+  Lemma canon_view_low : forall t k j, idx t = Some k -> k < j -> find_sys (firstn j C) t = find_sys C t.
+  Proof.
+    intros t k j Hk Hlt. destruct (canon_nth t k Hk) as [m [g [al [_ [_ [_ H4]]]]]].
+    rewrite (canon_find_prefix t j k _ H4 eq_refl Hlt). symmetry. eapply canon_find; [exact H4 | reflexivity].
+  Qed.
+
+  Lemma canon_view_ext : forall t j, has_mod P t = false -> find_sys (firstn j C) t = None.
+  Proof.
+    intros t j H. destruct (find_sys (firstn j C) t) as [e|] eqn:E; [|reflexivity].
+    exfalso. apply find_sys_In_paths in E.
+    assert (Hin : In t order).
+    { rewrite <- canon_paths. rewrite <- (firstn_skipn j C), map_app. apply in_or_app. left. exact E. }
+    destruct (index_of_In order t Hin) as [i Hi]. rewrite (ord_mod t i Hi) in H. discriminate.
+  Qed.
+
+  Lemma canon_done : forall q ms, find_sys C q = Some ms -> ms_done ms = true.
+  Proof.
+    intros q ms H. pose proof (find_sys_In_paths _ _ _ H) as Hin. rewrite canon_paths in Hin.
+    destruct (index_of_In order q Hin) as [i Hi].
+    destruct (canon_entry q i Hi) as [m [g [al [_ [_ [_ H4]]]]]]. rewrite H in H4. inversion H4. reflexivity.
+  Qed.
+
+  (* --- invariants of the dynamic run *)
+  Definition Inv (st : sysmods) : Prop :=
+    (forall q ms, find_sys st q = Some ms -> ms_done ms = true -> find_sys C q = Some ms) /\
+    (forall q, in_sys st q = true -> has_mod P q = true) /\
+    (forall q a, in_sys st q = true -> In a (proper_prefixes q) -> has_mod P a = true -> in_sys st a = true).
+
+  (* every partially initialised module has rank >= r *)
+  Definition Low (st : sysmods) (r : nat) : Prop :=
+    forall q ms, find_sys st q = Some ms -> ms_done ms = false -> exists k, idx q = Some k /\ r <= k.
+
+  Definition Ext (st st' : sysmods) : Prop :=
+    (forall q ms, find_sys st q = Some ms -> find_sys st' q = Some ms) /\
+    (forall q ms, find_sys st' q = Some ms -> ms_done ms = false -> find_sys st q = Some ms).
+
+  Lemma Ext_refl : forall st, Ext st st.
+  Proof. intro st. split; auto. Qed.
+
+  Lemma Ext_trans : forall a b c, Ext a b -> Ext b c -> Ext a c.
+  Proof.
+    intros a b c [H1 H2] [H3 H4]. split; intros q ms H.
+    - apply H3. apply H1. exact H.
+    - intro Hd. apply H2; [apply H4; assumption | exact Hd].
+  Qed.
+
+  Lemma Ext_in_sys : forall st st' q, Ext st st' -> in_sys st q = true -> in_sys st' q = true.
+  Proof.
+    intros st st' q [H _] Hq. apply in_sys_true in Hq. destruct Hq as [m Hm].
+    apply in_sys_true. exists m. apply H. exact Hm.
+  Qed.
+End Sound.
